@@ -104,7 +104,12 @@ func Variants(samIn, refIn io.Reader, refFromFile bool, annoIn io.Reader, annoSu
 
 	go groupSamRecords(samIn, cSH, cSR, cReadDone, cErr)
 
-	_ = <-cSH
+	// wait for the header, or for the error if the sam file can't be read at all
+	select {
+	case <-cSH:
+	case err := <-cErr:
+		return err
+	}
 
 	var wgAlign sync.WaitGroup
 	wgAlign.Add(threads)
